@@ -494,14 +494,14 @@ func hostBitsNonZero(a netip.Addr, ones int) bool {
 // hiddenQueryTokens finds tokens that are values of the named parameters, reading the raw
 // string leniently (text between the first '?' and the first '#').
 func hiddenQueryTokens(s string, names map[string]bool) []string {
+	if j := strings.IndexByte(s, '#'); j >= 0 {
+		s = s[:j] // URL reading: everything after the first '#' is the fragment
+	}
 	i := strings.IndexByte(s, '?')
 	if i < 0 {
 		return nil
 	}
 	q := s[i+1:]
-	if j := strings.IndexByte(q, '#'); j >= 0 {
-		q = q[:j]
-	}
 	var out []string
 	for _, kv := range strings.Split(q, "&") {
 		k, v, _ := strings.Cut(kv, "=")
